@@ -91,6 +91,8 @@ def main(argv=None):
     ap.add_argument("--no-evidence", action="store_true")
     a = ap.parse_args(argv)
     prop = a.prop.upper()
+    if a.tier == "thorough":
+        os.environ.setdefault("VERIF_CROSSCHECK", "150")
     seed = int(os.environ.get("VERIF_SEED", "0"))
     z3_seed(seed)
 
@@ -245,7 +247,8 @@ def report(prop, tier, seed, mod, cfgs, results, wall, write=True):
     known = {}
     inconclusive = []
     tot = dict(paths=0, decisions=0, queries=0, solver_s=0.0, obligations=0, discharged=0,
-               concolic=0, aborted=0, assumptions=0, cvc5_queries=0, cvc5_s=0.0)
+               concolic=0, aborted=0, assumptions=0, cvc5_queries=0, cvc5_s=0.0, by_rewriting=0)
+    cross = {"checked": 0, "agreed": 0, "inconclusive": 0}
     functions = set()
     covered = {}
     samples = []
@@ -260,6 +263,11 @@ def report(prop, tier, seed, mod, cfgs, results, wall, write=True):
             continue
         for k in tot:
             tot[k] += r[k]
+        xc = r.get("crosscheck") or {}
+        for k in ("checked", "agreed", "inconclusive"):
+            cross[k] += xc.get(k, 0)
+        for d in xc.get("disagreements", []):
+            harness_errors.append(f"second-solver disagreement: {d}")
         functions |= set(r["functions"])
         hn = r["cfg"]["harness"]
         ph = per_harness.setdefault(hn, dict(configs=0, paths=0, obligations=0, discharged=0,
@@ -370,6 +378,8 @@ def report(prop, tier, seed, mod, cfgs, results, wall, write=True):
             "states": tot["paths"], "transitions": tot["decisions"],
             "traces_validated_against_impl": tot["concolic"],
             "obligations": tot["obligations"], "discharged": tot["discharged"],
+            "discharged_by_solver_query": tot["discharged"] - tot["by_rewriting"],
+            "discharged_by_term_rewriting": tot["by_rewriting"],
             "inconclusive": len(inconclusive),
             "inconclusive_examples": inconclusive[:10],
             "configurations": len(cfgs), "infeasible_paths_pruned": tot["aborted"],
@@ -379,6 +389,10 @@ def report(prop, tier, seed, mod, cfgs, results, wall, write=True):
                        "cvc5_seconds": round(tot["cvc5_s"], 2),
                        "note": "queries include path-feasibility queries and obligations; FP "
                                "queries go to the cvc5 1.0.3 binary after a short z3 resource budget"},
+            "second_solver_crosscheck": dict(cross, solvers=["z3 4.8.12 binary", "cvc5 1.0.3 binary"],
+                                             note="seeded sample of discharged bit-vector "
+                                                  "obligations re-decided from an SMT-LIB2 export "
+                                                  "(thorough tier)"),
             "bounds": getattr(mod, "BOUNDS", {}).get(tier, getattr(mod, "BOUNDS", {})),
             "functions_executed_symbolically": sorted(functions),
             "stubs": getattr(mod, "STUBS", []),
